@@ -303,6 +303,17 @@ func fillRare(t *sim.T, m protoreflect.Message, depth int) int {
 		if fd.IsList() {
 			if fd.Kind() == protoreflect.MessageKind {
 				l := m.Get(fd).List()
+				if l.Len() == 0 && depth >= 1 && depth < 4 && t.Chance(1, 12) {
+					// a repeated message field nobody populates (carriage details, translations, ...): one to three
+					// elements, themselves mostly empty (an element with every optional field unset is legal)
+					ml := m.Mutable(fd).List()
+					for k := t.Range(1, 3); k > 0; k-- {
+						el := ml.NewElement()
+						n += 1 + fillRare(t, el.Message(), depth+1)
+						ml.Append(el)
+					}
+					continue
+				}
 				for k := 0; k < l.Len() && k < 40; k++ {
 					n += fillRare(t, l.Get(k).Message(), depth+1)
 				}
